@@ -9,6 +9,7 @@
       (QI --initialized--> QI is a reset without a run); anything else -> QBad.
     All statements quantify over EVERY label sequence [ls] = every history of
     calls, every schedule, every outcome and moment of the child's exit. *)
+From NL Require Import Life.Close Life.RunLive.
 From NL Require Import Life.Model Life.LockInv Life.FsmInv Life.Hist Life.Protocol.
 Open Scope Z_scope.
 
@@ -121,6 +122,48 @@ Theorem C02_run_to_end : forall stmt start th md ls n,
   runt s' = None /\ st_fsm s' = Finished /\ run_finished s' = Some true.
 Proof. exact all_run_to_end. Qed.
 
+(** LIVENESS, as one theorem (the mirror of C03_close_completes): from EVERY reachable state
+    in which a run task exists (an accepted run: starting, running or finishing) there is a
+    continuation consisting only of internal labels -- steps of API tasks at their gates,
+    steps of the run task, and the exit of the child (that the child exits, with whatever
+    outcome and whenever, is the environment's part; DESIGN 4.2) -- after which the run task
+    has ended, everything waiting for the run is released (run_finished set, no task left
+    at the wait for the run or at started.wait()), no child is left, the state is 'finished',
+    the hook protocol is complete (PF) and the run_info record of THAT run (its number and
+    script) is closed with `finished` carrying the result that result() reports.
+    With C02_measure / C02_bounded_steps (no schedule can postpone this for ever by internal
+    steps of the run task) this is the progress half of the property. *)
+Theorem C02_accepted_run_finishes : forall stmt start th md ls,
+  let s := run_labels (init_state stmt start th md) ls in
+  runt s <> None ->
+  exists ls', Forall (fun l => Close.internal l = true) ls' /\
+    let s' := run_labels s ls' in
+    runt s' = None /\ run_finished s' = Some true /\ alive s' = 0%nat /\ pending_exit s' = None /\
+    st_fsm s' = Finished /\
+    (forall t c p, find_task (tasks s') t = Some (c, p) -> p <> P_WaitRunFinished /\ p <> R_WaitStarted) /\
+    proto (hooks_of (history s')) = PF /\
+    exists n st o,
+      rinfo (pubs_of (history s')) = QF n st o /\ exited_proc s' = Some o /\
+      last_result (pubs_of (history s')) = Some o /\
+      (forall a, run_arg s = Some a -> n = ra_no a /\ st = ra_stmt a).
+Proof. exact accepted_run_finishes. Qed.
+
+(** in the middle of a run_session request (the run task has published `running`, the call
+    still has its state notification to do, the child is alive, the caller will wait for the
+    run): the hypothesis holds and a concrete continuation ends as the theorem says *)
+Example C02_example_liveness_nonvacuous :
+  let s := run_labels ex_init [Call 0%nat CStart; Step 0%nat; Step 0%nat; Step 0%nat;
+                               Call 1%nat CRunSession; StepRun; StepRun] in
+  let s' := run_labels s [StepRun; Step 1%nat; Step 1%nat; ChildExit OInterrupt; StepRun; StepRun; StepRun; StepRun;
+                          Step 1%nat] in
+  runt s = Some RT_G_start /\ alive s = 1%nat /\ find_task (tasks s) 1%nat = Some (CRunSession, R_WaitStarted)
+  /\ find_task (tasks (run_labels s [StepRun; Step 1%nat; Step 1%nat])) 1%nat = Some (CRunSession, P_WaitRunFinished)
+  /\ runt s' = None /\ run_finished s' = Some true /\ alive s' = 0%nat /\ st_fsm s' = Finished /\ tasks s' = []
+  /\ proto (hooks_of (history s')) = PF /\ rinfo (pubs_of (history s')) = QF 1 7 OInterrupt
+  /\ exited_proc s' = Some OInterrupt
+  /\ hd_error (trace s') = Some (EvRet 1%nat CRunSession ROk).
+Proof. vm_compute. repeat split; reflexivity. Qed.
+
 (** the history of C12's example: two runs (return, raise) with a reset in
     between, then close: the run_info sequence is init 1, running 1,
     finished 1 (return), init 2, running 2, finished 2 (raise); the hypotheses
@@ -161,5 +204,7 @@ Print Assumptions C02_measure_nonincreasing.
 Print Assumptions C02_progress.
 Print Assumptions C02_bounded_steps.
 Print Assumptions C02_run_to_end.
+Print Assumptions C02_accepted_run_finishes.
+Print Assumptions C02_example_liveness_nonvacuous.
 Print Assumptions C02_example_nonvacuous.
 Print Assumptions C02_example_automaton_rejects.
